@@ -63,7 +63,11 @@ namespace BitSerializer::MsgPack::Detail
 			return mBinaryStreamReader.GetPosition();
 		}
 		void SetPosition(size_t pos) override {
-			mBinaryStreamReader.SetPosition(pos);
+			if (!mBinaryStreamReader.SetPosition(pos))
+			{
+				throw SerializationException(SerializationErrorCode::InputOutputError,
+					"The input stream does not support seeking to the requested position");
+			}
 		}
 		[[nodiscard]] bool IsEnd() const noexcept override {
 			return mBinaryStreamReader.IsEnd();
